@@ -9,6 +9,7 @@ MODULES = {
     'messages/radio_status.rs': 'c_radio_status',
     'messages/position_report.rs': 'c_position_report',
     'errors.rs': 'c_errors',
+    'lib.rs': 'c_lib',
     'messages/mod.rs': 'c_messages_mod',
     'sentence.rs': 'c_sentence',
 }
